@@ -20,7 +20,7 @@ CHECK = {
     "technique": "Lean 4: statement-level model of build.unify with theorems for all inputs (index = common set, per-arch list exact and sorted, dead `missing` loop, order-independence partial + negation witness), byte-range arithmetic proved over expressions regenerated from LockCmd, relock invariant on the shared resolver model (constrain isolates every locked name; in universes without provides/install_if every pick of a successful re-resolution is a member, so the result is exactly the locked set) + full statement refuted by the F09a witness; correspondence of unify / LockImageConfiguration / the relock round trip / `apko lock` + `apko build --lockfile` end to end against Impl, with the round-trip oracle evaluated in Lean on every Go output",
     "trusted_base": LEAN_TB + ["Model/Resolver.lean mirrors repo.go by hand (tie = C02/C14 suites + the lock suite's relock steps + body hashes)",
                                "harness/synthrepo.go + lock_e2e.go build the signed file repositories and recompute ranges/checksums independently of apko's writers"],
-    "rule": "cases = per-architecture universe families (1-4 architectures derived from one base: versions missing / different / newer on one architecture, provides dropped; 45% `clean` = no install_if, no provides of real names, parsable versions, no duplicates) with worlds of 1-5 entries (operators, pins, virtuals requested by provided name); per case: unify through the hook in two architecture orders + every order (order independence), per architecture the relock round trip with the real resolver; 20% raw adversarial `resolved` values straight into unify; 4% real LockImageConfiguration on materialised signed repositories; 4% `apko lock` + `apko build` + `apko build --lockfile` (signed and unsigned packages, ranges and checksums recomputed from the files, images compared bytewise and modulo install order). non-trivial = a lock was produced / the round trip ran; distinct = distinct request lines",
+    "rule": "every e2e case whose lock succeeds adds two oracle steps: lock-mirror (the same packages published a second time with signature sections swapped, both repositories locked in ONE process with the package cache on; every recorded range/checksum recomputed from the file at its URL) and lock-rawarch (build.New + BuildImage with build.WithArch in the apk spelling and the lock file: installed count = entries the lock lists for that architecture); cases = per-architecture universe families (1-4 architectures derived from one base: versions missing / different / newer on one architecture, provides dropped; 45% `clean` = no install_if, no provides of real names, parsable versions, no duplicates) with worlds of 1-5 entries (operators, pins, virtuals requested by provided name); per case: unify through the hook in two architecture orders + every order (order independence), per architecture the relock round trip with the real resolver; 20% raw adversarial `resolved` values straight into unify; 4% real LockImageConfiguration on materialised signed repositories; 4% `apko lock` + `apko build` + `apko build --lockfile` (signed and unsigned packages, ranges and checksums recomputed from the files, images compared bytewise and modulo install order). non-trivial = a lock was produced / the round trip ran; distinct = distinct request lines",
     "assumptions": ["`resolved` maps are non-nil and packages = keys(versions), as LockImageConfiguration builds them (WF in the theorems)",
                     "architecture names are distinct and none is called `index`",
                     "hashes are outside the model: checksums are recomputed by the harness from the package files"],
